@@ -243,7 +243,9 @@ def json_files_follow_their_schemas(files):
     for f in files:
         try:
             doc = json.loads(f.decode("utf-8"))
-            frames = [x.encode("latin-1") for x in doc["metadata"]["astm"].split("\n")]
+            # (frames are joined by LF; a LF inside a frame's text is content: frames begin with STX)
+            import re as _re
+            frames = [x.encode("latin-1") for x in _re.split("\n(?=\x02)", doc["metadata"]["astm"])]
         except Exception:
             return "an archived file is not a json document with metadata.astm"
         module = C17.expected_module(frames[0].decode("latin-1"))
